@@ -32,7 +32,8 @@ REGISTRY_SENSITIVE = re.compile(r"\(struct\b|\(defmap\b|typelist|defined\?|symnu
 
 def census(c):
     """Run the census translator; cached by the content of the sources it reads."""
-    srcs = sorted(p for p in glob.glob(os.path.join(common.REPO, "zygo", "*.go")) if not p.endswith("_test.go"))
+    srcs = sorted(p for p in glob.glob(os.path.join(common.REPO, "zygo", "*.go"))
+                  if not p.endswith("_test.go") and (not os.path.basename(p).startswith("verif_") or p.endswith("verif_step_off.go")))
     srcs += [os.path.join(common.VERIF, "translator", "cmd", "census", "main.go")]
     target = os.path.join(common.COQ, "Generated", "Census.v")
     h = hashlib.sha256()
@@ -70,7 +71,7 @@ def uncovered_sites(c):
     os.makedirs(q, exist_ok=True)
     path = os.path.join(q, "C20query.v")
     open(path, "w").write(
-        "From Coq Require Import String List.\nRequire Import ZV.Model.MapWalk ZV.Generated.Census.\n"
+        "From Coq Require Import String List.\nRequire Import ZV.Model.MapWalk ZV.Generated.Census.\nImport ListNotations.\n"
         "Eval vm_compute in (map (fun s => (s_file s, s_func s, s_idx s, s_map s, s_class s, s_calls s)) (uncovered generated_census)).\n"
         "Eval vm_compute in (map (fun g => (g_name g, g_writers g)) (uncovered_globals generated_globals)).\n")
     with common.Lock("coq"):
@@ -81,8 +82,9 @@ def uncovered_sites(c):
         except OSError:
             pass
     text = re.sub(r"\s+", " ", out)
-    sites = re.findall(r'\("([^"]+)", "([^"]+)", (\d+), "([^"]*)", (\w+), (\[[^\]]*\]|nil)\)', text)
-    globs = re.findall(r'\("([^"]+)", (\[[^\]]*\])\)', text.split(": list (string * string * nat", 1)[-1])
+    blocks = re.split(r": list \(string \* ", text)
+    sites = re.findall(r'\("([^"]+)", "([^"]+)", (\d+), "([^"]*)", (\w+), (\[[^\]]*\])\)', blocks[0])
+    globs = re.findall(r'\("([^"]+)", (\[[^\]]*\])\)', blocks[1] if len(blocks) > 1 else "")
     return ([{"file": s[0], "func": s[1], "idx": int(s[2]), "map": s[3], "class": s[4], "calls": s[5]} for s in sites],
             [{"name": g[0], "writers": g[1]} for g in globs])
 
